@@ -590,10 +590,35 @@ func manyServices(tier string, rep *evidence.Reporter, cov *evidence.Coverage) {
 			}
 		}
 	}
+	// far more registrations than any range scan returns in one answer: the storage is filled
+	// directly (10 000 services at 1000, the collector at 1000, one service that sorts last at
+	// 500), then one request goes through the handler
+	{
+		m.ops = []svcOp{{kind: "upd", service: "zz-late", ttl: 50, sp: 2000}}
+		m.Reset()
+		exp := m.nowUnix() + 100000
+		put := func(id string, sp uint64, e int64) {
+			m.st.PutDirect(svcPrefix+id, fmt.Sprintf(`{"service_id":%q,"expired_at":%d,"safe_point":%d}`, id, e, sp))
+			m.ref[id] = ent{sp, e}
+		}
+		for i := 0; i < 10000; i++ {
+			put(fmt.Sprintf("svc-%05d", i), 1000, exp)
+		}
+		put("gc_worker", 1000, math.MaxInt64)
+		put("zz-backup", 500, exp)
+		steps++
+		if v := m.Apply(0); v != nil {
+			msg := v.Msg
+			if len(msg) > 400 {
+				msg = msg[:400] + "..."
+			}
+			rep.Report(&evidence.Violation{Scenario: "many-services", Key: v.Key, Message: "10002 registered services, then " + m.ops[0].String() + ": " + msg, Replay: []int{10002, 0}})
+		}
+	}
 	cov.States += steps
 	cov.Transitions += steps
 	cov.Evaluations += steps
-	cov.TracesValidatedAgainstImpl += int64(2 * len(sizes))
+	cov.TracesValidatedAgainstImpl += int64(2*len(sizes) + 1)
 	cov.Scenarios = append(cov.Scenarios, map[string]interface{}{"scope": "many-services", "registered_services": sizes, "handler_calls_judged": steps})
 	fmt.Printf("C15 many-services sizes=%v handler-calls=%d\n", sizes, steps)
 }
